@@ -33,6 +33,7 @@ fn c08__span__new_contract() {
     // explicit copies of the postcondition so that a native replay reproduces a violation
     assert!(r.start <= r.end);
     assert!((r.start == a && r.end == b) || (r.start == b && r.end == a));
+    kani::cover!(true); // vacuity guard: the end of the harness is reachable under its assumptions
 }
 
 #[kani::proof]
@@ -45,6 +46,7 @@ fn c08__span__with_start_with_end() {
     let b = s.with_end(p);
     assert!(b.start <= b.end);
     assert!((b.start == s.start && b.end == p) || (b.start == p && b.end == s.start));
+    kani::cover!(true); // vacuity guard: the end of the harness is reachable under its assumptions
 }
 
 /// `to` is the least span containing both arguments (what every parser action that joins two
@@ -62,6 +64,7 @@ fn c08__span__to_is_least_upper_bound() {
     if u.contains(a) && u.contains(b) {
         assert!(u.contains(t));
     }
+    kani::cover!(true); // vacuity guard: the end of the harness is reachable under its assumptions
 }
 
 #[kani::proof]
@@ -72,6 +75,7 @@ fn c08__span__between_until() {
     assert!(m.start == a.end && m.end == b.start);
     let u = a.until(b);
     assert!(u.start == a.start && u.end == b.start);
+    kani::cover!(true); // vacuity guard: the end of the harness is reachable under its assumptions
 }
 
 #[kani::proof]
@@ -81,6 +85,7 @@ fn c08__span__from_offset() {
     kani::assume(raw(s) as u64 + off as u64 <= u32::MAX as u64); // stays inside the addressable text
     let r = Span::from_offset(s, ByteOffset(off as i64));
     assert!(r.start == s && raw(r.end) == raw(s) + off);
+    kani::cover!(true); // vacuity guard: the end of the harness is reachable under its assumptions
 }
 
 /// subspan delimits [start+begin, start+end) and panics only when its documented precondition fails
@@ -92,6 +97,7 @@ fn c08__span__subspan() {
     let r = s.subspan(ByteOffset(b as i64), ByteOffset(e as i64));
     assert!(raw(r.start) == raw(s.start) + b && raw(r.end) == raw(s.start) + e);
     assert!(s.contains(r));
+    kani::cover!(true); // vacuity guard: the end of the harness is reachable under its assumptions
 }
 
 #[kani::proof]
@@ -110,6 +116,7 @@ fn c20__containment__contains_is_interval_inclusion() {
     assert!(a.contains(b) == (raw(a.start) <= raw(b.start) && raw(b.end) <= raw(a.end)));
     let p = any_pos();
     assert!(a.contains_pos(p) == (raw(a.start) <= raw(p) && raw(p) <= raw(a.end)));
+    kani::cover!(true); // vacuity guard: the end of the harness is reachable under its assumptions
 }
 
 /// total and trichotomous for every (start, end, pos): Less before, Greater after, Equal exactly on [start, end]
@@ -122,6 +129,7 @@ fn c20__containment__trichotomy() {
     assert!((c == Ordering::Greater) == (raw(p) > raw(s.end)));
     assert!((c == Ordering::Equal) == (raw(s.start) <= raw(p) && raw(p) <= raw(s.end)));
     assert!(s.contains_pos(p) == (c == Ordering::Equal));
+    kani::cover!(true); // vacuity guard: the end of the harness is reachable under its assumptions
 }
 
 /// the exclusive variant differs only at pos == end (the position just after the last character)
@@ -136,6 +144,7 @@ fn c20__containment__exclusive_differs_only_at_end() {
         assert!(c == s.containment(p));
     }
     assert!((c == Ordering::Equal) == (raw(s.start) <= raw(p) && raw(p) < raw(s.end)));
+    kani::cover!(true); // vacuity guard: the end of the harness is reachable under its assumptions
 }
 
 // -------------------------------------------------------------- Location::shift (line/column bookkeeping of the lexer)
@@ -152,4 +161,5 @@ fn c08__location__shift() {
     } else {
         assert!(loc.line.to_usize() as u32 == l && loc.column.to_usize() as u32 == c + 1);
     }
+    kani::cover!(true); // vacuity guard: the end of the harness is reachable under its assumptions
 }
